@@ -187,6 +187,8 @@ func makeField(v reflect.Value, params fieldParameters) (encoder, error) {
 
 	var berType berTypeEncoder
 	var tag tagAndLen
+	// a tagged CHOICE is always tagged explicitly: its wrapper is built in the CHOICE case below
+	choiceWrapped := false
 
 	// We deal with the structures defined in this package first.
 	switch fieldType {
@@ -258,6 +260,7 @@ func makeField(v reflect.Value, params fieldParameters) (encoder, error) {
 						return makeField(val.Field(present), tempParams)
 					}
 					tag.constructed = true
+					choiceWrapped = true
 					var err error
 					berType.value, err = makeField(val.Field(present), tempParams)
 					if err != nil {
@@ -349,7 +352,7 @@ func makeField(v reflect.Value, params fieldParameters) (encoder, error) {
 	tag.len = int64(berType.value.Len())
 
 	if params.tagNumber != nil {
-		if params.explicitTag {
+		if params.explicitTag && !choiceWrapped {
 			t := berType
 			t.tagAndLen = bytesEncoder(appendTagAndLen(make([]byte, 8)[:0], tag))
 			berType.value = &t
